@@ -1216,6 +1216,9 @@ def array_to_groups_and_locations(
         # groups here are the strings; need to restore to values
         if unique_axis == 1:
             groups = array[NULL_SLICE, group_index]
+        elif unique_axis is None:
+            # positions of the flattened array
+            groups = array.reshape(-1)[group_index]
         else:
             groups = array[group_index]
 
